@@ -36,3 +36,18 @@ pub fn on_sleep(ms: u64) {
         cb(ms);
     }
 }
+
+use std::sync::atomic::{AtomicBool, Ordering};
+
+static SKIP_REORDER: AtomicBool = AtomicBool::new(false);
+
+/// When set, the planner's value-only reorder pass is skipped (used to attribute differences
+/// between planned and literal execution to that one pass).
+pub fn set_skip_reorder(skip: bool) {
+    SKIP_REORDER.store(skip, Ordering::SeqCst);
+}
+
+/// Whether the reorder pass is currently disabled.
+pub fn skip_reorder() -> bool {
+    SKIP_REORDER.load(Ordering::SeqCst)
+}
